@@ -128,10 +128,10 @@ def build(cfg, dtype=torch.float64, keep=None):
             return m, lambda ins: _flat_out(m(ins[0]))
         if k == 'dwt1_inv':
             m = pw.DWT1DInverse(wave=_wave(cfg, True, npdt, keep), mode=cfg['mode'])
-            return m, lambda ins: [m((ins[0], _with_none(ins[1:], cfg)))]
+            return m, lambda ins: [_inv_call(m, ins[0], _with_none(ins[1:], cfg))]
         if k == 'dwt2_inv':
             m = pw.DWTInverse(wave=_wave(cfg, True, npdt, keep), mode=cfg['mode'])
-            return m, lambda ins: [m((ins[0], _with_none(ins[1:], cfg)))]
+            return m, lambda ins: [_inv_call(m, ins[0], _with_none(ins[1:], cfg))]
         if k == 'swt':
             m = SWTForward(J=cfg['J'], wave=_wave(cfg, False, npdt, keep), mode=cfg['mode'])
             return m, lambda ins: list(m(ins[0]))
@@ -151,7 +151,7 @@ def build(cfg, dtype=torch.float64, keep=None):
             m = pw.DTCWTInverse(biort=cfg['biort'], qshift=cfg['qshift'], o_dim=cfg['o_dim'], ri_dim=cfg['ri_dim'],
                                 mode=cfg.get('mode', 'symmetric'))
             o, ri = cfg['o_dim'], cfg['ri_dim']
-            return m, lambda ins: [m((ins[0], [to_layout(t, o, ri) for t in ins[1:]]))]
+            return m, lambda ins: [_inv_call(m, ins[0], [to_layout(t, o, ri) for t in ins[1:]])]
         if k in ('afb2d', 'afb2d_nonsep'):
             # filters are prepared once, in the requested precision, so that calls never touch the
             # process-wide default dtype (which would race between threads)
@@ -181,6 +181,17 @@ def build(cfg, dtype=torch.float64, keep=None):
                                combine_colour=cfg['colour'])
             return m, lambda ins: [m(ins[0])]
     raise ValueError(k)
+
+
+ARG_MUTATIONS = []         # filled by _inv_call: the caller's coefficient LIST (not only its tensors) is an argument too
+
+
+def _inv_call(m, lo, highs):
+    snap = list(highs)
+    out = m((lo, highs))
+    if len(highs) != len(snap) or any(a is not b for a, b in zip(highs, snap)):
+        ARG_MUTATIONS.append('the list of highpass coefficients handed to %s was modified by the call' % type(m).__name__)
+    return out
 
 
 def _with_none(highs, cfg):
